@@ -1,6 +1,7 @@
 import QR.Proofs.Segmentation
 import QR.Proofs.Pinned
 import QR.Proofs.SourceTieD1b
+import QR.Proofs.CapstoneE3
 /-
 C10 - segmentation is lossless, uses valid and most-compact modes, honours the optimize threshold.
 `Model.addData` mirrors QRCode.add_data / util.optimal_data_chunks / _optimal_split with the four regular expressions as
@@ -131,6 +132,70 @@ theorem C10_source_addData_object (F enc) {κ : Type} (dl : List sg_QRData) (cac
   QR.SourceTieD1.addData_object_src F enc dl cache q optimize
 
 end SourceTieD1
+
+/-! ### Capstones: (bridge) + (property) composed - the TRANSLATED segmentation code itself satisfies the Spec clauses.
+The only not-translated callee is the `re` engine: the interpreter record is `pyModel F enc`, i.e. `re.search` / `re.match`
+are instantiated by `SourceTieD1.searchModel` / `matchModel` (the stated assumption on `re`), arguments are `bytes`, and each
+`while data:` loop started on `d` is granted `F d ≥ len(d)` iterations.  `CapstoneE3.qToPSegs` reads the translated `QRData`
+objects as Spec segments (same reading as `toPSegs`). -/
+section Capstone
+open QR.Gen.Code QR.SourceTieD1 QR.CapstoneE3
+
+/-- **capstone, `main.py:QRCode.add_data` -> `util.py:optimal_data_chunks` -> `util.py:_optimal_split`, `util.py:QRData.__init__`,
+    `util.py:optimal_mode`, `util.py:to_bytestring`** (all translated, `sg_*`; `re` = `searchModel`): for every byte string, every
+    threshold and every previous `data_list`, the translated `add_data` raises nothing, resets the cache, and appends objects
+    `qs` that have supported modes and satisfy ALL FIVE clauses of `Spec.segmentation optimize data` (lossless, valid,
+    threshold 0, runs carried, minimum length). From `C10_source_addData`, `C10_modes`, `C10_segmentation`. -/
+theorem C10_source_capstone_add_data (F enc) (hF : ∀ d : List Nat, d.length ≤ F d) {κ : Type} (dl : List sg_QRData)
+    (cache : Option κ) (data : Bytes) (optimize : Nat) :
+    ∃ qs ps, sg_add_data (pyModel F enc) dl cache (.inr data) optimize = .ok (dl ++ qs, none) ∧
+      qToPSegs qs = some ps ∧ (Spec.segmentation optimize data ps).ok = true := by
+  obtain ⟨ps, hps⟩ := C10_modes data optimize
+  exact ⟨(addData data optimize).map segQ, ps, C10_source_addData F enc hF dl cache data optimize,
+    by rw [qToPSegs_map_segQ, hps], C10_segmentation data optimize ps hps⟩
+
+/-- **capstone, `util.py:optimal_data_chunks`** (with `_optimal_split`, `QRData.__init__`; `re` = `searchModel`) called directly
+    with `minimum ≥ 1`: it raises nothing and yields objects with supported modes satisfying the five clauses of
+    `Spec.segmentation minimum data`. From `C10_source_optimalDataChunks`, `C10_modes`, `C10_segmentation`. -/
+theorem C10_source_capstone_optimal_data_chunks (F enc) (hF : ∀ d : List Nat, d.length ≤ F d) (data : Bytes) (minimum : Nat)
+    (hmin : 1 ≤ minimum) :
+    ∃ qs ps, sg_optimal_data_chunks (pyModel F enc) data minimum = .ok qs ∧
+      qToPSegs qs = some ps ∧ (Spec.segmentation minimum data ps).ok = true := by
+  obtain ⟨ps, hps⟩ := C10_modes data minimum
+  have hadd : addData data minimum = optimalDataChunks data minimum := by
+    have : minimum ≠ 0 := by omega
+    simp [addData, this]
+  refine ⟨(optimalDataChunks data minimum).map segQ, ps, C10_source_optimalDataChunks F enc hF data minimum, ?_,
+    C10_segmentation data minimum ps hps⟩
+  rw [qToPSegs_map_segQ, ← hadd, hps]
+
+/-- **capstone (lossless, read directly on the translated objects), `main.py:QRCode.add_data`**: the `data` attributes of the
+    appended objects concatenate to exactly the supplied bytes. From `C10_source_addData`, `C10_lossless`. -/
+theorem C10_source_capstone_add_data_lossless (F enc) (hF : ∀ d : List Nat, d.length ≤ F d) {κ : Type} (dl : List sg_QRData)
+    (cache : Option κ) (data : Bytes) (optimize : Nat) :
+    ∃ qs, sg_add_data (pyModel F enc) dl cache (.inr data) optimize = .ok (dl ++ qs, none) ∧
+      qs.flatMap (·.data) = data :=
+  ⟨(addData data optimize).map segQ, C10_source_addData F enc hF dl cache data optimize,
+    by rw [flatMap_data_map_segQ, C10_lossless]⟩
+
+/-- **capstone, `util.py:QRData.__init__(data, mode=m, check_data=True)`** (translated, with `optimal_mode`, `to_bytestring`):
+    a requested mode that, by the Spec (`Spec.canRepresent`), cannot represent the data raises the interpreter's `ValueError`.
+    From `C10_source_mkQRData`, `C10_explicit_rejected`. -/
+theorem C10_source_capstone_qrdata_rejected (fuel enc) (d : List Nat) (m : Nat) (hm : m = 1 ∨ m = 2 ∨ m = 4)
+    (h : ∃ md, Spec.Mode.ofIndicator m = some md ∧ Spec.canRepresent md d = false) :
+    sg_qrdata_init (pyModel fuel enc) d (some m) true = .error (pyModel fuel enc).ValueError := by
+  rw [C10_source_mkQRData, C10_explicit_rejected d m hm h]; rfl
+
+/-- the capstone's conclusion evaluated on "AB1234567cd", threshold 4, through the TRANSLATED code: three objects
+    (byte, numeric, byte), and the Spec verdict on them is `true` -/
+example : sg_add_data (pyModel (fun d => d.length) id) [] (none : Option Unit)
+      (.inr [65, 66, 49, 50, 51, 52, 53, 54, 55, 99, 100]) 4 =
+      .ok ([⟨4, [65, 66]⟩, ⟨1, [49, 50, 51, 52, 53, 54, 55]⟩, ⟨4, [99, 100]⟩], none) ∧
+    (Spec.segmentation 4 [65, 66, 49, 50, 51, 52, 53, 54, 55, 99, 100]
+      [⟨.byte, [65, 66]⟩, ⟨.numeric, [49, 50, 51, 52, 53, 54, 55]⟩, ⟨.byte, [99, 100]⟩]).ok = true :=
+  ⟨by rfl, by decide⟩
+
+end Capstone
 
 /-- the Python functions this property's model mirrors have, in /repo's current working tree, exactly the normalised
     ASTs the model was written and validated against (fingerprints regenerated by T1 on every run) -/
